@@ -12,11 +12,13 @@
  *                                     features give a new regular file (extents if the feature is on, else block map),
  *                                     1 = inline data (EXT4_INLINE_DATA_FL + ext2fs_inline_data_init, as debugfs write does)
  *   cuts <f> <n> <c0> ... <cn-1>      concretisation table of file f (c0 must be 0)
+ *   begin                             logs the accounting record before the first operation (the base of the record)
  *   obs <0|1>                         1: after EVERY step read both files back completely through their handles
  *                                     0: only "read" steps and the final step observe (keeps the block buffer undisturbed)
  *   write <f> <ia> <ib> <tag>         llseek(c[ia]); write c[ib]-c[ia] bytes, payload byte = P(tag, offset)
  *   iwrite <ia0> <ib0> <t0> <ia1> <ib1> <t1>   both writes, issued block by block alternately (fragmented allocation:
- *                                     every block becomes its own extent); logged as two write lines
+ *                                     every block becomes its own extent); logged as two write lines ("pair":1 and 2,
+ *                                     both taken after both writes)
  *   read <f>                          full read-back of file f (observation only)
  *   setsize <f> <ia>                  ext2fs_file_set_size2(c[ia])
  *   punch <f> <ia> <ib>               c[ia], c[ib] block aligned; handle closed, ext2fs_punch(blocks), handle reopened
@@ -748,6 +750,13 @@ int main(int argc, char **argv)
 				p += used;
 			}
 			ncut[f] = n;
+		} else if (!strcmp(cmd, "begin")) {
+			/* the files exist and are empty: the accounting record starts here (everything in use now is the base) */
+			int sv = observe;
+			observe = 0;
+			logop("begin", 0, 0, 0, 0, 0, 0, 1);
+			print_files(-1);
+			observe = sv;
 		} else if (!strcmp(cmd, "obs")) {
 			sscanf(line, "%*s %d", &observe);
 		} else if (!strcmp(cmd, "write")) {
@@ -784,9 +793,11 @@ int main(int argc, char **argv)
 			sv = observe;
 			observe = 0;
 			logop("write", 0, a, b, tag, 0, r0, d0 == cuts[0][b] - cuts[0][a]);
+			printf(",\"pair\":1");
 			print_files(-1);
 			observe = sv;
 			logop("write", 1, a1, b1, t1, 0, r1, d1 == cuts[1][b1] - cuts[1][a1]);
+			printf(",\"pair\":2");
 			print_files(-1);
 		} else if (!strcmp(cmd, "read")) {
 			if (sscanf(line, "%*s %d", &f) != 1) die("read args", 0);
